@@ -34,6 +34,13 @@ type nodeLoc struct {
 	loc  *ploc    // *ploc - can be nil if node is dirty (not yet persisted).
 	node *node    // *node - can be nil if node is not fetched into memory yet.
 	next *nodeLoc // For free-list tracking.
+
+	// lateLoad is set on the child locations of a node when that node is
+	// replaced (marked reclaimable) while the child is not in memory: the
+	// replacement copied only the file location, so whatever is fetched
+	// through this location afterwards is seen by the old versions alone
+	// and has to be recycled together with this node.
+	lateLoad bool
 }
 
 var emptyNodeLoc = nodeLoc{} // Sentinel.
